@@ -32,3 +32,14 @@ Proof. intros H. apply (nth_ext _ _ d d).
 Lemma map_nth_lt {A B} (f : A -> B) (l : list A) (d : A) (d' : B) (i : nat) :
   i < length l -> nth i (map f l) d' = f (nth i l d).
 Proof. intros Hi. rewrite (nth_indep _ d' (f d)) by (rewrite map_length; exact Hi). apply map_nth. Qed.
+
+Lemma In_skipn {A} (x : A) (l : list A) (n : nat) : In x (skipn n l) -> In x l.
+Proof. revert l. induction n as [|n IH]; intros l H; [exact H|]. destruct l as [|y l]; [destruct H|].
+  right. apply IH. exact H. Qed.
+
+Lemma In_firstn {A} (x : A) (l : list A) (n : nat) : In x (firstn n l) -> In x l.
+Proof. revert l. induction n as [|n IH]; intros l H; [destruct H|]. destruct l as [|y l]; [destruct H|].
+  destruct H as [->|H]; [left; reflexivity|right; apply IH; exact H]. Qed.
+
+Lemma In_skipn_firstn {A} (x : A) (l : list A) (a k : nat) : In x (firstn k (skipn a l)) -> In x l.
+Proof. intros H. apply (In_skipn x l a). apply (In_firstn x _ k). exact H. Qed.
